@@ -11,6 +11,7 @@ INVARIANT ProgressInv
 INVARIANT OrderInv
 INVARIANT PartialInv
 INVARIANT FinalInv
+INVARIANT LookupInv
 INVARIANT SumInv
 INVARIANT CrossInv
 INVARIANT PermInv
